@@ -329,6 +329,7 @@ J_dur_new(e) ==
             \o V("years-months", <<p.years, p.months>> = <<a.y, a.mo>>, <<a.y, a.mo>>)
             \o V("components", CompsOf(p) = Breakdown(r), Breakdown(r))
             \o V("total_seconds", p.ts = t, t)
+            \o V("as_timedelta", p.atd = t, t)
             \* total_x() = total_seconds() / unit in floating point: consistent within the float's relative precision
             \o V("total_minutes", Near(p.tmi, t, FTol(t)), t) \o V("total_hours", Near(p.th, t, FTol(t)), t)
             \o V("total_days", Near(p.td, t, FTol(t)), t) \o V("total_weeks", Near(p.tw, t, FTol(t)), t)
